@@ -1006,7 +1006,7 @@ func init() {
 	})
 
 	Register(Spec[c30MediaIn]{
-		ID: "C30", Suite: "media", Quick: 300, Thorough: 6000, Parallel: 8, Timeout: 400 * time.Second,
+		ID: "C30", Suite: "media", Quick: 300, Thorough: 3000, Parallel: 8, Timeout: 400 * time.Second,
 		Corpus: func() []c30MediaIn {
 			return []c30MediaIn{
 				{Sem: 0}, {Sem: 1, Simulcast: true}, {Sem: 2},
@@ -1060,7 +1060,7 @@ func init() {
 	Register(Spec[c30RTXIn]{
 		ID: "C30", Suite: "rtx", CoqImports: []string{"Check.C30"},
 		CoqType: "string * Z * Z * Z", CoqRun: "Check.C30.run_rtx",
-		Quick: 300, Thorough: 6000, Parallel: 8, Timeout: 400 * time.Second,
+		Quick: 300, Thorough: 3000, Parallel: 8, Timeout: 400 * time.Second,
 		Corpus: func() []c30RTXIn {
 			pad := func(h string) string { return h + strings.Repeat("00", c30RTXMTU-len(h)/2) }
 			return []c30RTXIn{
